@@ -102,7 +102,18 @@ class Image(Relation):
                                   ang)
             shapes = [('inner', wq * sp['f1'] / 2, hq * sp['f2'] / 2),
                       ('outer', wq / 2, hq / 2)]
+        # the conversion is a pure function of (region, wcs): converting the
+        # same region again gives the same image, and the region is untouched
+        from vf.fingerprint import fp
+        fp_reg = fp(reg)
+        first = reg.to_pixel(wcs)
+        fp_first = fp(first)
         pix = reg.to_pixel(wcs)
+        ctx.check(fp(reg) == fp_reg,
+                  f'{cls} | to_pixel modifies the sky region')
+        ctx.check(fp(pix) == fp_first and fp(first) == fp_first,
+                  f'{cls} | a second to_pixel of the same region gives a '
+                  'different image')
         ctx.label(cls, W.rot_family(w), 'proj:' + w['proj'],
                   'frame:' + ('same' if frame == w['frame'] else 'other'))
         # (a) centre
